@@ -110,7 +110,7 @@ def r_C01visitors(root):
             r = call("visit_repeatable_expr", v, node, [e, operator(v, tok, sepm, with_eol)])
             what = "e%s[%s]" % (tok, " ".join(x for x in ("','" if with_sep else "", "eolterm" if with_eol else "") if x))
             ok = r[0] == "ret" and isinstance(r[1], dict) and r[1].get(".kind") == KIND[tok] and (r[1].get(".sep") is sepm) and (sepm is None or sepm.get(".rule_name") == "sep") and bool(r[1].get(".eolterm")) == with_eol
-            rep("C01.b", "visit_repeatable_expr", what, ok, "%s  becomes %s; documented %s with %s" % (what, desc(r), KIND[tok], " and ".join(x for x in ("the separator ',' (named sep)" if with_sep else "no separator", "eolterm" if with_eol else "no eolterm"))), props_=("C01", "C19"))
+            rep("C01.b", "visit_repeatable_expr", what, ok, "%s  becomes %s; documented %s with %s" % (what, desc(r), KIND[tok], " and ".join(x for x in ("the separator ',' (named sep)" if with_sep else "no separator", "eolterm" if with_eol else "no eolterm"))), props_=("C01", "C19", "C22"))
     v, _c = new_visitor()
     r = call("visit_repeatable_expr", v, node, [E("StrMatch", to_match="x"), operator(v, "?", E("StrMatch", to_match=","))])
     rep("C01.b", "visit_repeatable_expr", "e?[',']", r == ("raise", "TextXSyntaxError"), "e?[',']  (modifiers on the optional operator) %s; documented TextXSyntaxError" % desc(r), props_=("C01", "C23"))
@@ -178,12 +178,13 @@ def r_C01visitors(root):
         r = call("visit_assignment", v, node, ["a", op, arhs(v, rhs(), mods(v, E("StrMatch", to_match=",")))])
         rep("C01.b", "visit_assignment", "a%sINT[',']" % op, r == ("raise", "TextXSyntaxError"), "a%sINT[',']  (modifiers on a single-valued assignment) %s; documented TextXSyntaxError" % (op, desc(r)), props_=("C01", "C23"))
     for op in ("+=", "*="):
-        for with_sep, with_eol in ((True, False), (False, True), (True, True)):
-            v, cls = new_visitor(); sepm = E("StrMatch", to_match=",") if with_sep else None
+        for with_sep, with_eol in ((True, False), (False, True), (True, True), ("kw", False), ("kw", True)):
+            v, cls = new_visitor(); sepm = (kw("and") if with_sep == "kw" else E("StrMatch", to_match=",")) if with_sep else None      # 'and' under autokwd: a regex match with a word boundary
+            sept = "'and'" if with_sep == "kw" else "','"
             r = call("visit_assignment", v, node, ["a", op, arhs(v, rhs(), mods(v, sepm, with_eol))])
-            what = "a%sINT[%s]" % (op, " ".join(x for x in ("','" if with_sep else "", "eolterm" if with_eol else "") if x))
-            ok = r[0] == "ret" and isinstance(r[1], dict) and r[1].get(".kind") == ASG[op][0] and r[1].get(".sep") is sepm and bool(r[1].get(".eolterm")) == with_eol
-            rep("C01.b", "visit_assignment", what, ok, "%s  becomes %s; documented %s with %s" % (what, desc(r), ASG[op][0], " and ".join(x for x in ("the separator ','" if with_sep else "no separator", "eolterm" if with_eol else "no eolterm"))), props_=("C01", "C19"))
+            what = "a%sINT[%s]" % (op, " ".join(x for x in (sept if with_sep else "", "eolterm" if with_eol else "") if x))
+            ok = r[0] == "ret" and isinstance(r[1], dict) and r[1].get(".kind") == ASG[op][0] and r[1].get(".sep") is sepm and bool(r[1].get(".eolterm")) == with_eol and (sepm is None or (sepm.get(".to_match_regex") == ("and\\b" if with_sep == "kw" else None) and sepm.get(".rule_name") == "sep"))
+            rep("C01.b", "visit_assignment", what, ok, "%s  becomes %s; documented %s with %s" % (what, desc(r), ASG[op][0], " and ".join(x for x in (("the separator %s (the very match the modifiers carry, %s)" % (sept, "with its word boundary" if with_sep == "kw" else "named sep")) if with_sep else "no separator", "eolterm" if with_eol else "no eolterm"))), props_=("C01", "C19", "C22") + (("C21",) if with_sep == "kw" else ()))
     # a*= after a+= keeps 1..*; repeated assignments and types
     v, cls = new_visitor()
     call("visit_assignment", v, node, ["a", "+=", arhs(v, rhs())]); r = call("visit_assignment", v, node, ["a", "*=", arhs(v, rhs())])
